@@ -43,7 +43,7 @@ pub const ENTRIES: [&str; 9] = [
     "with_deserializer_from_reader",
 ];
 
-pub const OPTION_VECTORS: [&str; 8] = [
+pub const OPTION_VECTORS: [&str; 9] = [
     "default",
     "budget=None",
     "every budget limit=3",
@@ -52,6 +52,7 @@ pub const OPTION_VECTORS: [&str; 8] = [
     "no_schema+strict_booleans+legacy_octal, crop_radius=3",
     "with_snippet=false",
     "alias limits (4,2,2)",
+    "angle_conversions (robotics)",
 ];
 
 pub fn options(i: u8) -> serde_saphyr::Options {
@@ -89,6 +90,7 @@ pub fn options(i: u8) -> serde_saphyr::Options {
             o.crop_radius = 3;
         }
         6 => o.with_snippet = false,
+        8 => o.angle_conversions = true,
         _ => {
             o.alias_limits.max_total_replayed_events = 4;
             o.alias_limits.max_replay_stack_depth = 2;
